@@ -36,6 +36,14 @@ height; what a walk does to it is C17). `play_invariant`: `play` with an empty p
 state. Not proved here: `play` with a non-empty pool and `playForMiner` against the canonical state (they need the
 commutation of independent transactions), and the induction over whole histories; for those the correspondence
 check and the fresh-replica oracle stand (the registry text says what is partial).
+
+The ghost log and the chain. `ChainLog e s C`: the ghost log `C` of `XV.C02.Ledger` is the transactions of the blocks on
+the path root..pointer. It holds at genesis and is kept by `doTx`, `play`, `playForMiner` (`ChainLog_genesis`,
+`doTx_ChainLog`, `play_ChainLog`, `playForMiner_ChainLog`) and by `walk` together with `Ledger`: `walk_Ledger_chain`
+(success; the hypothesis `hundo` of `XV.C02.walk_Ledger` is discharged) and `walk_Ledger_chain_full` (every outcome: a
+refused undo or a failing block leaves the node at an intermediate block whose path explains its tables). So
+(`Ledger`, `ChainLog`) is an inductive invariant of the reachable states. `hre` is needed: `walk_Ledger_needs_hre`,
+`walk_Ledger_chain_needs_hre` (a pending transaction without token input that the new branch confirms is re-admitted).
 -/
 namespace XV.C01
 open XV.Chain XV.C02
@@ -1555,7 +1563,8 @@ parent links go strictly down in height, the path root..pointer is `pre ++ undo.
 hypotheses speak of the destination's path only: its transaction ids are pairwise distinct (`hnd`), the transactions of the
 blocks to apply are known under their ids and a coinbase among them has no inputs and no fee (`hblk`), a pending
 transaction that the destination's path confirms has a token input (`hre`; needed: `walk_Ledger_needs_hre`). After a
-successful walk the pair (`Ledger`, `ChainLog`) holds again, for the log of the destination's path. -/
+successful walk the pair (`Ledger`, `ChainLog`) holds again, for the log of the destination's path. For the failing
+outcomes see `walk_Ledger_chain_full`. -/
 theorem walk_Ledger_chain (e : Env) (s : St) (lh : Int) (dest : Nat) (prune : Bool) (C : List Nat)
     (hpl : ParentLower e) (h : Ledger e s C) (hc : ChainLog e s C) (hid : (e.block dest).id = dest)
     (hnd : (blockTxs e (ancestors e (e.blocks.length + 1) dest).reverse).Nodup)
@@ -1782,5 +1791,262 @@ theorem walk_Ledger_chain_needs_hre : ¬ walk_Ledger_chain_nohre_statement := by
   rw [hC] at hnd
   revert hnd
   decide
+
+-- ================================================================== the chain-shape invariant in every outcome of a walk
+
+/-- undoing the block at the pointer takes its transactions off the log: the path of the parent is the path without it
+(for a root block the pointer goes to `0`, whose path carries no transaction: `hgen`) -/
+theorem undoBlock_ChainLog (e : Env) (hpl : ParentLower e) (hgen : ChainLog e {} []) (st : St) (prune : Bool)
+    (C0 : List Nat) (h : ChainLog e st (C0 ++ (e.block st.pointer).txs)) :
+    ChainLog e (undoBlock e st (e.block st.pointer) prune) C0 := by
+  unfold ChainLog at h ⊢
+  have hptr : (undoBlock e st (e.block st.pointer) prune).pointer = (e.block st.pointer).pre.getD 0 := rfl
+  rw [hptr]
+  cases hp : (e.block st.pointer).pre with
+  | none =>
+    rw [ancestors_succ_none e _ st.pointer hp] at h
+    have h' : C0 ++ (e.block st.pointer).txs = [] ++ (e.block st.pointer).txs := by
+      rw [h]; simp [blockTxs]
+    rw [List.append_cancel_right h']
+    exact hgen
+  | some q =>
+    rw [ancestors_child e hpl st.pointer q hp, List.reverse_cons, blockTxs_snoc] at h
+    exact List.append_cancel_right h
+
+/-- **the undo loop of `walk` keeps (`Ledger`, `ChainLog`) at every block it stops at**: started on a prefix `undo` of the
+ancestor list of the pointer with the log `C0 ++` the transactions of those blocks, it ends — completed or refused at the
+irreversible height — in a state that satisfies both invariants for some log, which is `C0` if it completed -/
+theorem undoAll_LedgerChain (e : Env) (prune : Bool) (hpl : ParentLower e) (hgen : ChainLog e {} [])
+    (undo : List Nat) : ∀ (st : St) (C0 : List Nat),
+    Ledger e st (C0 ++ blockTxs e undo.reverse) → st.pool = [] → ChainLog e st (C0 ++ blockTxs e undo.reverse) →
+    (∃ tl, ancestors e (e.blocks.length + 1) st.pointer = undo ++ tl) →
+    ∃ C', Ledger e (walk.undoAll e prune undo st).1 C' ∧ (walk.undoAll e prune undo st).1.pool = [] ∧
+      ChainLog e (walk.undoAll e prune undo st).1 C' ∧ ((walk.undoAll e prune undo st).2 = true → C' = C0) := by
+  induction undo with
+  | nil =>
+    intro st C0 h hp hc _
+    unfold walk.undoAll
+    have hC : C0 ++ blockTxs e ([] : List Nat).reverse = C0 := by simp [blockTxs]
+    rw [hC] at h hc
+    exact ⟨C0, h, hp, hc, fun _ => rfl⟩
+  | cons bi rest ih =>
+    intro st C0 h hp hc hpre
+    unfold walk.undoAll
+    simp only
+    split
+    · exact ⟨_, h, hp, hc, by simp⟩
+    · obtain ⟨tl, htl⟩ := hpre
+      obtain ⟨hbi, hrest⟩ := ancestors_prefix_step e hpl st.pointer bi rest tl htl
+      subst hbi
+      rw [List.reverse_cons, blockTxs_snoc, ← List.append_assoc] at h hc
+      obtain ⟨h1, h2⟩ := undoBlock_Ledger e st (e.block st.pointer) prune _ h hp
+      have h3 := undoBlock_ChainLog e hpl hgen st prune _ hc
+      exact ih _ C0 h1 h2 h3 hrest
+
+/-- **the apply loop of `walk` keeps (`Ledger`, `ChainLog`) at every block it stops at**: `P ++ T` is the path root..dest
+(`hpath`), `done` the blocks of `T` already applied, `todo` those still to apply; the state satisfies `Ledger` for the log
+of `P ++ done` and has an empty pool. Whether the loop completes or a block fails admission, the result satisfies both
+invariants for some log — the log of the whole path if it completed. For `done = []` (nothing applied yet) the chain shape
+of the start state is a hypothesis (`hc0`); after one block it follows from the path. -/
+theorem todoAll_LedgerChain (e : Env) (lh : Int) (hpl : ParentLower e) (dest : Nat) (P T : List Nat)
+    (hpath : (ancestors e (e.blocks.length + 1) dest).reverse = P ++ T)
+    (hids : ∀ bi ∈ T, (e.block bi).id = bi)
+    (hnd : (blockTxs e (P ++ T)).Nodup)
+    (hblk : ∀ bi ∈ T, (∀ i ∈ (e.block bi).txs, (e.tx i).id = i) ∧
+      (∀ i ∈ (e.block bi).txs, (e.tx i).coinbase = true → (e.tx i).ins = [] ∧ feeOf (e.tx i).outs = 0))
+    (todo : List Nat) : ∀ (done : List Nat) (st : St), T = done ++ todo →
+    Ledger e st (blockTxs e (P ++ done)) → st.pool = [] → ChainLog e st (blockTxs e (P ++ done)) →
+    ∃ C', Ledger e (walk.todoAll e lh todo st).1 C' ∧ (walk.todoAll e lh todo st).1.pool = [] ∧
+      ChainLog e (walk.todoAll e lh todo st).1 C' ∧
+      ((walk.todoAll e lh todo st).2 = true → C' = blockTxs e (P ++ T)) := by
+  induction todo with
+  | nil =>
+    intro done st hT h hp hc
+    unfold walk.todoAll
+    rw [List.append_nil] at hT
+    exact ⟨_, h, hp, hc, fun _ => by rw [hT]⟩
+  | cons bi rest ih =>
+    intro done st hT h hp hc
+    unfold walk.todoAll
+    have hbiT : bi ∈ T := by rw [hT]; simp
+    obtain ⟨b1, b2⟩ := hblk bi hbiT
+    cases htb : todoBlock e st lh (e.block bi) with
+    | none => exact ⟨_, h, hp, hc, by simp⟩
+    | some st' =>
+      simp only
+      have hsplit : blockTxs e (P ++ T) = blockTxs e (P ++ done) ++ ((e.block bi).txs ++ blockTxs e rest) := by
+        rw [hT, ← List.append_assoc, blockTxs_append, blockTxs_cons]
+      rw [hsplit] at hnd
+      obtain ⟨_, hndR, hdis⟩ := List.nodup_append.mp hnd
+      obtain ⟨t1, t2⟩ := todoBlock_Ledger e st st' lh (e.block bi) _ htb h hp
+        (List.nodup_append.mp hndR).1 b1
+        (fun i hi hc' => hdis i hc' i (List.mem_append_left _ hi) rfl) b2
+      have hdone : blockTxs e (P ++ done) ++ (e.block bi).txs = blockTxs e (P ++ (done ++ [bi])) := by
+        rw [← List.append_assoc, blockTxs_snoc]
+      rw [hdone] at t1
+      have hc' : ChainLog e st' (blockTxs e (P ++ (done ++ [bi]))) := by
+        unfold ChainLog
+        rw [todoBlock_pointer e st st' lh (e.block bi) htb, hids bi hbiT,
+          path_prefix e hpl dest bi (P ++ done) rest (by rw [hpath, hT, List.append_assoc]), List.append_assoc]
+      exact ih (done ++ [bi]) st' (by rw [hT, List.append_assoc]; rfl) t1 t2 hc'
+
+/-- **`walk` keeps the pair (`Ledger`, `ChainLog`) in EVERY outcome** — success, an undo refused at the irreversible
+height, a block of the new branch that fails admission. In the two failing outcomes the node stays at an intermediate
+block (on the old branch above the fork point, at the fork point, or part of the way up the new branch) with an empty
+pool, and the log that explains its tables is the log of the path of that block. On success the log is that of the
+destination's path. Hypotheses as for `walk_Ledger_chain`, with two changes: the blocks to apply are known to the
+environment under their ids (`hids`; it replaces `(e.block dest).id = dest`, and is what puts the pointer where the log
+says after each applied block), and the path of the initial pointer `0` carries no transaction (`hgen`, see
+`ChainLog_genesis`; used when a root block is undone). -/
+theorem walk_Ledger_chain_full (e : Env) (s : St) (lh : Int) (dest : Nat) (prune : Bool) (C : List Nat)
+    (hpl : ParentLower e) (hgen : ChainLog e {} []) (h : Ledger e s C) (hc : ChainLog e s C)
+    (hids : ∀ bi ∈ (undoTodo e s.pointer dest).2, (e.block bi).id = bi)
+    (hnd : (blockTxs e (ancestors e (e.blocks.length + 1) dest).reverse).Nodup)
+    (hblk : ∀ bi ∈ (undoTodo e s.pointer dest).2, (∀ i ∈ (e.block bi).txs, (e.tx i).id = i) ∧
+      (∀ i ∈ (e.block bi).txs, (e.tx i).coinbase = true → (e.tx i).ins = [] ∧ feeOf (e.tx i).outs = 0))
+    (hre : ∀ i ∈ s.pool, i ∈ blockTxs e (ancestors e (e.blocks.length + 1) dest).reverse → (e.tx i).ins ≠ []) :
+    ∃ C', Ledger e (walk e s lh dest prune).1 C' ∧ ChainLog e (walk e s lh dest prune).1 C' ∧
+      ((walk e s lh dest prune).2 = true →
+        C' = blockTxs e (ancestors e (e.blocks.length + 1) dest).reverse) := by
+  obtain ⟨pre, p1, p2⟩ := undoTodo_paths e s.pointer dest hpl
+  have hcur : ancestors e (e.blocks.length + 1) s.pointer = (undoTodo e s.pointer dest).1 ++ pre.reverse := by
+    have := congrArg List.reverse p1
+    rw [List.reverse_reverse] at this
+    rw [this]; simp
+  have hC : C = blockTxs e pre ++ blockTxs e (undoTodo e s.pointer dest).1.reverse := by
+    unfold ChainLog at hc
+    rw [hc, p1, blockTxs_append]
+  rw [walk_shape]
+  simp only
+  -- step 1: roll the pool back
+  have hl := h.led
+  obtain ⟨_, hndP, _⟩ := List.nodup_append.mp hl.nodupA
+  obtain ⟨_, hoP, _⟩ := List.pairwise_append.mp hl.order
+  have hndr : s.pool.reverse.Nodup := by
+    unfold List.Nodup
+    rw [List.pairwise_reverse]
+    exact List.Pairwise.imp (fun h => fun e2 => h e2.symm) hndP
+  have hfold := undoFold_LedSum e s.pool.reverse s C s.pool h hndr (fun t ht => List.mem_reverse.mp ht)
+    (by rw [List.pairwise_reverse]; exact hoP) (fun t _ j hj _ => List.mem_reverse.mpr hj)
+  have hnil : s.pool.filter (fun x => !s.pool.reverse.contains x) = [] := by
+    apply List.filter_eq_nil_iff.mpr; intro a ha; simp [ha]
+  rw [hnil] at hfold
+  have hptr0 : ({ (s.pool.reverse.foldl (fun st i => undoTx e st (e.tx i)) s) with pool := [] } : St).pointer
+      = s.pointer := foldl_undoTx_pointer e s.pool.reverse s
+  have h0 : Ledger e { (s.pool.reverse.foldl (fun st i => undoTx e st (e.tx i)) s) with pool := [] }
+      (blockTxs e pre ++ blockTxs e (undoTodo e s.pointer dest).1.reverse) := by
+    rw [← hC]; exact LedSum.congr hfold rfl rfl
+  have hc0 : ChainLog e { (s.pool.reverse.foldl (fun st i => undoTx e st (e.tx i)) s) with pool := [] }
+      (blockTxs e pre ++ blockTxs e (undoTodo e s.pointer dest).1.reverse) := by
+    rw [← hC]
+    unfold ChainLog at hc ⊢
+    rw [hptr0]; exact hc
+  -- step 2: undo blocks
+  obtain ⟨C1, u1, u2, u3, u4⟩ := undoAll_LedgerChain e prune hpl hgen (undoTodo e s.pointer dest).1 _ (blockTxs e pre)
+    h0 rfl hc0 ⟨pre.reverse, by rw [hptr0]; exact hcur⟩
+  cases hr1 : (walk.undoAll e prune (undoTodo e s.pointer dest).1
+      { (s.pool.reverse.foldl (fun st i => undoTx e st (e.tx i)) s) with pool := [] }).2 with
+  | false => exact ⟨C1, by simpa [hr1] using u1, by simpa [hr1] using u3, by simp [hr1]⟩
+  | true =>
+    simp only [hr1, Bool.not_true, Bool.false_eq_true, ↓reduceIte]
+    have hC1 := u4 hr1
+    rw [hC1] at u1 u3
+    -- step 3: apply blocks
+    obtain ⟨C2, t1, t2, t3, t4⟩ := todoAll_LedgerChain e lh hpl dest pre (undoTodo e s.pointer dest).2 p2 hids
+      (by rw [← p2]; exact hnd) hblk (undoTodo e s.pointer dest).2 [] _ rfl
+      (by rw [List.append_nil]; exact u1) u2 (by rw [List.append_nil]; exact u3)
+    cases hr2 : (walk.todoAll e lh (undoTodo e s.pointer dest).2
+        (walk.undoAll e prune (undoTodo e s.pointer dest).1
+          { (s.pool.reverse.foldl (fun st i => undoTx e st (e.tx i)) s) with pool := [] }).1).2 with
+    | false => exact ⟨C2, by simpa [hr2] using t1, by simpa [hr2] using t3, by simp [hr2]⟩
+    | true =>
+      simp only [hr2, Bool.not_true, Bool.false_eq_true, ↓reduceIte]
+      have hC2 := t4 hr2
+      rw [hC2, ← p2] at t1 t3
+      -- step 4: re-submit the pool
+      refine ⟨_, readmit_Ledger e lh s.pool _ _ t1 ?_, ?_, fun _ => rfl⟩
+      · intro i hi
+        exact ⟨hl.idEq i (List.mem_append_right _ hi), h.poolNonCoinbase i hi, hre i hi⟩
+      · unfold ChainLog at t3 ⊢
+        rw [foldl_doTx_pointer]; exact t3
+
+-- non-vacuity of `walk_Ledger_chain_full`, on the two FAILING outcomes. The tree of `clEnv` with slide window 1 and two more
+-- blocks: 13 = [7 (award)] on 11, and 14 = [6 (award), 2] on 12 — transaction 2 spends an output of transaction 1, which is
+-- not on the branch of 12, so block 14 fails admission.
+--   node A: blocks 10, 11 played, pool [2], irreversible height 1. Walk to 14: 11 undone, 12 applied, 14 FAILS -> the node
+--     stays at 12 with an empty pool, log [100, 8, 3].
+--   node B: A + block 13, irreversible height 2. Non-pruning walk to 12: 13 undone, the undo of 11 (height 2) is REFUSED
+--     -> the node stays at 11 with an empty pool, log [100, 9, 1]. (The pruning walk succeeds.)
+private def wfEnv : Env := { clEnv with
+  window := 1,
+  txs := clEnv.txs ++ [(7, ⟨7, true, [], [⟨"miner", 10, 0⟩], [], []⟩), (6, ⟨6, true, [], [⟨"miner2", 10, 0⟩], [], []⟩)],
+  blocks := clEnv.blocks ++ [(13, ⟨13, some 11, 3, [7], "miner"⟩), (14, ⟨14, some 12, 3, [6, 2], "miner2"⟩)] }
+private def wfA : St :=
+  (play wfEnv (doTx wfEnv (doTx wfEnv (play wfEnv {} 0 (wfEnv.block 10)).1 0 1).1 0 2).1 0 (wfEnv.block 11)).1
+private def wfB : St := (play wfEnv wfA 0 (wfEnv.block 13)).1
+
+private theorem wfEnv_lower : ParentLower wfEnv := parentLower_of_blocks _ (by decide)
+
+private theorem wfA_Ledger : Ledger wfEnv wfA [100, 9, 1] := by
+  have g1 : Ledger wfEnv (play wfEnv {} 0 (wfEnv.block 10)).1 [100] := by
+    have := play_Ledger_full wfEnv {} 0 (wfEnv.block 10) [] (Ledger_genesis wfEnv) (by decide) (by decide) (by decide)
+      (by decide)
+    rw [if_pos (by decide)] at this
+    exact this
+  have g2 := doTx_Ledger wfEnv _ 0 1 [100] g1 (fun _ => by decide)
+  have g3 := doTx_Ledger wfEnv _ 0 2 [100] g2 (fun _ => by decide)
+  have := play_Ledger_full wfEnv _ 0 (wfEnv.block 11) [100] g3 (by decide) (by decide) (by decide) (by decide)
+  rw [if_pos (by decide)] at this
+  exact this
+
+private theorem wfB_Ledger : Ledger wfEnv wfB [100, 9, 1, 7] := by
+  have := play_Ledger_full wfEnv wfA 0 (wfEnv.block 13) [100, 9, 1] wfA_Ledger (by decide) (by decide) (by decide)
+    (by decide)
+  rw [if_pos (by decide)] at this
+  exact this
+
+-- a block of the new branch fails admission
+example : ParentLower wfEnv ∧ ChainLog wfEnv {} [] ∧ Ledger wfEnv wfA [100, 9, 1] ∧ ChainLog wfEnv wfA [100, 9, 1] ∧
+    wfA.pointer = 11 ∧ wfA.pool = [2] ∧ wfA.irrev = 1 ∧ undoTodo wfEnv wfA.pointer 14 = ([11], [12, 14]) ∧
+    (∀ bi ∈ (undoTodo wfEnv wfA.pointer 14).2, (wfEnv.block bi).id = bi) ∧
+    (blockTxs wfEnv (ancestors wfEnv (wfEnv.blocks.length + 1) 14).reverse).Nodup ∧
+    (∀ bi ∈ (undoTodo wfEnv wfA.pointer 14).2, (∀ i ∈ (wfEnv.block bi).txs, (wfEnv.tx i).id = i) ∧
+      (∀ i ∈ (wfEnv.block bi).txs, (wfEnv.tx i).coinbase = true →
+        (wfEnv.tx i).ins = [] ∧ feeOf (wfEnv.tx i).outs = 0)) ∧
+    (∀ i ∈ wfA.pool, i ∈ blockTxs wfEnv (ancestors wfEnv (wfEnv.blocks.length + 1) 14).reverse →
+      (wfEnv.tx i).ins ≠ []) ∧
+    (walk wfEnv wfA 0 14 false).2 = false ∧ (walk wfEnv wfA 0 14 false).1.pointer = 12 ∧
+    (walk wfEnv wfA 0 14 false).1.pool = [] ∧ ChainLog wfEnv (walk wfEnv wfA 0 14 false).1 [100, 8, 3] :=
+  ⟨wfEnv_lower, by decide, wfA_Ledger, by decide, by decide, by decide, by decide, by decide, by decide, by decide,
+    by decide, by decide, by decide, by decide, by decide, by decide⟩
+example : Ledger wfEnv (walk wfEnv wfA 0 14 false).1 [100, 8, 3] := by
+  obtain ⟨C', c1, c2, _⟩ := walk_Ledger_chain_full wfEnv wfA 0 14 false [100, 9, 1] wfEnv_lower (by decide) wfA_Ledger
+    (by decide) (by decide) (by decide) (by decide) (by decide)
+  have h4 : C' = [100, 8, 3] := by
+    unfold ChainLog at c2
+    rw [c2]; decide
+  rw [← h4]; exact c1
+-- an undo refused at the irreversible height
+example : Ledger wfEnv wfB [100, 9, 1, 7] ∧ ChainLog wfEnv wfB [100, 9, 1, 7] ∧
+    wfB.pointer = 13 ∧ wfB.pool = [2] ∧ wfB.irrev = 2 ∧ undoTodo wfEnv wfB.pointer 12 = ([13, 11], [12]) ∧
+    (∀ bi ∈ (undoTodo wfEnv wfB.pointer 12).2, (wfEnv.block bi).id = bi) ∧
+    (blockTxs wfEnv (ancestors wfEnv (wfEnv.blocks.length + 1) 12).reverse).Nodup ∧
+    (∀ bi ∈ (undoTodo wfEnv wfB.pointer 12).2, (∀ i ∈ (wfEnv.block bi).txs, (wfEnv.tx i).id = i) ∧
+      (∀ i ∈ (wfEnv.block bi).txs, (wfEnv.tx i).coinbase = true →
+        (wfEnv.tx i).ins = [] ∧ feeOf (wfEnv.tx i).outs = 0)) ∧
+    (∀ i ∈ wfB.pool, i ∈ blockTxs wfEnv (ancestors wfEnv (wfEnv.blocks.length + 1) 12).reverse →
+      (wfEnv.tx i).ins ≠ []) ∧
+    (walk wfEnv wfB 0 12 false).2 = false ∧ (walk wfEnv wfB 0 12 false).1.pointer = 11 ∧
+    (walk wfEnv wfB 0 12 false).1.pool = [] ∧ ChainLog wfEnv (walk wfEnv wfB 0 12 false).1 [100, 9, 1] ∧
+    (walk wfEnv wfB 0 12 true).2 = true ∧ ChainLog wfEnv (walk wfEnv wfB 0 12 true).1 [100, 8, 3] :=
+  ⟨wfB_Ledger, by decide, by decide, by decide, by decide, by decide, by decide, by decide, by decide, by decide,
+    by decide, by decide, by decide, by decide, by decide, by decide⟩
+example : Ledger wfEnv (walk wfEnv wfB 0 12 false).1 [100, 9, 1] := by
+  obtain ⟨C', c1, c2, _⟩ := walk_Ledger_chain_full wfEnv wfB 0 12 false [100, 9, 1, 7] wfEnv_lower (by decide) wfB_Ledger
+    (by decide) (by decide) (by decide) (by decide) (by decide)
+  have h4 : C' = [100, 9, 1] := by
+    unfold ChainLog at c2
+    rw [c2]; decide
+  rw [← h4]; exact c1
 
 end XV.C01
